@@ -11,6 +11,7 @@ EXPLANATION = (
     "storage write; the saved record is the loaded record with exactly one field replaced (admin / code_id) under the "
     "address that was looked up; the registry write dominates call_migrate, which runs on the same address (handler "
     "resolution from the stored code id and the storage window are covered by C05.R4)."
+    " Every non-Err result of update_admin and of the Migrate arm is dominated by the admin guard (a success for a non-admin is a violation even when nothing is written)."
 )
 TRUSTED = ["rustc MIR construction", "cwmt-facts driver", "vlib (dominators, provenance, condition normalisation)",
            "Option<Addr> equality", "C05.R4 (handler and window resolved from the same address)"]
